@@ -463,7 +463,11 @@ func DrawLayout(rng *rand.Rand, nConv int, opts LayoutOpts) *LSpec {
 		} else {
 			c.Kind = "interface"
 		}
-		switch rng.IntN(9) {
+		switch rng.IntN(11) {
+		case 9:
+			c.OutFile = "./v2/" + strings.ToLower(c.Name) + ".go" // directory name ending in a digit
+		case 10:
+			c.OutFile = "@cwd/oauth2-" + strings.ToLower(c.Name) + "9/z.go"
 		case 0, 1:
 			// default
 		case 2:
@@ -709,7 +713,7 @@ func (s *LSpec) Shorten() *LSpec {
 // second package. Systematic counterpart of DrawLayout.
 func CoverageSpecs() []*LSpec {
 	var out []*LSpec
-	files := []string{"", "./gen/x.go", "../upx/out.go", "@cwd/shared/out.go", "@cwd/svc/conv/local/z.go", "./same_x_gen.go", "sub/dir/x_out.go"}
+	files := []string{"", "./gen/x.go", "../upx/out.go", "@cwd/shared/out.go", "@cwd/svc/conv/local/z.go", "./same_x_gen.go", "sub/dir/x_out.go", "./api/v2/x.go", "@cwd/3rd-party_S3/x.go"}
 	for _, of := range files {
 		for pk := 0; pk < 4; pk++ {
 			for us := 0; us < 3; us++ {
